@@ -1438,6 +1438,32 @@ fn expected_conforms(j: &Value) -> String {
     "11".into()
 }
 
+/// `cpu_arch=…` then `trust=…` (threads in order, then the crashing-thread copy; first occurrences)
+fn undocumented_enums(j: &Value) -> String {
+    let mut out: Vec<String> = Vec::new();
+    if let Some(a) = j["system_info"]["cpu_arch"].as_str() {
+        if !CPU_DOC.contains(&a) {
+            out.push(format!("cpu_arch={a}"));
+        }
+    }
+    let mut seen: Vec<String> = Vec::new();
+    let mut threads: Vec<&Value> = j["threads"].as_array().map(|a| a.iter().collect()).unwrap_or_default();
+    if let Some(c) = j.get("crashing_thread") {
+        threads.push(c);
+    }
+    for t in threads {
+        for f in t["frames"].as_array().map(|a| a.iter().collect::<Vec<_>>()).unwrap_or_default() {
+            if let Some(tr) = f["trust"].as_str() {
+                if !TRUST_DOC.contains(&tr) && !seen.iter().any(|x| x == tr) {
+                    seen.push(tr.to_string());
+                }
+            }
+        }
+    }
+    out.extend(seen.into_iter().map(|t| format!("trust={t}")));
+    out.join(",")
+}
+
 /// states on which `Conforms` is predictable from the three detectors above: the generator's
 /// deliberate departures from well-formedness (empty offset sets, counts ≥ 2^32) are excluded
 fn conforms_predictable(ps: &ProcessState) -> bool {
@@ -1801,7 +1827,9 @@ fn expected_out(r: &Run, orc_json: &Option<Value>) -> String {
         Ok(c) => {
             let mut out = format!("M:{}", hex(c));
             if let (true, Some(j)) = (conforms_predictable(&r.ps), orc_json) {
-                out.push_str(&format!(" C:{} U:proc_limits P:1", expected_conforms(j)));
+                // R:1 — the Lean redundancy predicate `Consistent` must hold on the real bytes;
+                // E: — enumeration values outside json-schema.md's lists, computed here from the real output
+                out.push_str(&format!(" C:{} R:1 U:proc_limits E:{} P:1", expected_conforms(j), undocumented_enums(j)));
             }
             out
         }
